@@ -208,6 +208,19 @@ impl Case {
         self.id % 11 == 10
     }
 
+    /// the documented-but-inert `bufsize` knob ("limits the maximum pickle size"): a fifth of the cases set it, to
+    /// ordinary and to extreme values; the output must not depend on it
+    pub fn bufsize(&self) -> Option<usize> {
+        match self.id % 15 {
+            2 => Some(4096),
+            5 => Some(0),
+            8 => Some(usize::MAX),
+            11 => Some(isize::MAX as usize + 1),
+            14 => Some(1),
+            _ => None,
+        }
+    }
+
     /// the configured generator.  The public builder offers several equivalent routes to one configuration
     /// (`with_opcode_range` or the two single setters in either order, `with_mutators` or repeated `with_mutator`,
     /// any order of the builder calls); which route is taken is derived from the case id, so that a builder whose
@@ -228,6 +241,7 @@ impl Case {
                 g.seed = Some(*s);
             }
             g.output.extend_from_slice(b"left over by the caller");
+            g.bufsize = self.bufsize();
             return g;
         }
         let route = self.id % 6;
@@ -239,6 +253,9 @@ impl Case {
             if self.id % 2 == 1 {
                 order.reverse();
             }
+        }
+        if let Some(sz) = self.bufsize() {
+            g = g.with_buffer_size(sz);
         }
         for step in order {
             g = match step {
